@@ -58,7 +58,38 @@ def check_observation(what, obs, results, glob):
     return False
 
 
+def module_names_across_processes(seeds=("0", "1", "4242"), quiet=True):
+    """The BMC identifies the N requests by ONE module name.  That assumption is part of the property
+    (same forms + options + flags => same name in every process): computed here in real interpreter
+    processes with different hash seeds, with several compile flags in the request."""
+    import os
+    import subprocess
+
+    from . import sigcheck
+
+    outs = []
+    for sd in seeds:
+        r = subprocess.run(["/venv/bin/python", "-c", sigcheck.STAB, os.environ.get("VERIF_REPO", "/repo"), "0", "a"], capture_output=True, text=True,
+                           env=dict(os.environ, PYTHONHASHSEED=sd, PYTHONPATH=""))
+        if r.returncode:
+            return None, r.stderr[-300:]
+        outs.append(json.loads(r.stdout.strip().splitlines()[-1]))
+    names = sorted({o["module"] for o in outs})
+    if not quiet:
+        print("module names computed by", len(seeds), "processes for the same request:", names)
+        print("REPRODUCED" if len(names) > 1 else "not reproduced")
+    return names, None
+
+
 def run_c14(chk, tier):
+    names, err = module_names_across_processes(("0", "1", "4242") if tier == "quick" else ("0", "1", "2", "77", "4242", "99999"))
+    chk.cases.append("one-module-name-assumption")
+    if names is None:
+        chk.harness_error(f"module-name subprocess failed: {err}")
+    elif len(names) > 1:
+        src = ("#!/verif/.venv/bin/python\nimport sys\nsys.path[:0]=['/verif','/repo']\nfrom vlib import jitcheck\n"
+               "n, _ = jitcheck.module_names_across_processes(quiet=False)\nsys.exit(1 if n and len(n) > 1 else 0)\n")
+        chk.violation("jit:module-name-differs-between-processes", f"processes requesting the same forms with the same options and compile flags compute different module names {names[:2]}: each takes its own lock and compiles (no mutual exclusion, no reuse)", src)
     cfgs = [(2, 2)] if tier == "quick" else [(2, 2), (2, 3), (3, 2), (3, 3)]
     for N, T in cfgs:
         t0 = time.time()
